@@ -317,6 +317,7 @@ def run(ctx):
             ctx.violation('lang-%s-%s' % (lk, res[0]), 'language error %s in %r: %s' % (lk, full, res[1]),
                           {'kind': 'lang', 'src': full})
     layer_smoke(ctx, 300 if ctx.quick else 5000)
+    layer_garbage_arguments(ctx, 400 if ctx.quick else 8000)
 
 
 SMOKE_ATTRS = [
@@ -332,6 +333,91 @@ SMOKE_ATTRS = [
     'tal:define="x repeat.i.index|0"', 'xml:lang="en"', 'tal:attributes="class default; title None"', 'title="T ${t}"', 'class="k"',
     'checked="${c}"',
 ]
+
+
+GARBAGE_STMTS = ['tal:define', 'tal:condition', 'tal:repeat', 'tal:content', 'tal:replace', 'tal:omit-tag', 'tal:attributes', 'tal:switch',
+                 'tal:case', 'tal:on-error', 'i18n:translate', 'i18n:name', 'i18n:domain', 'i18n:context', 'i18n:target', 'i18n:attributes',
+                 'i18n:data', 'i18n:comment', 'metal:define-macro', 'metal:use-macro', 'metal:define-slot', 'metal:fill-slot',
+                 'metal:extend-macro', 'meta:interpolation']
+GARBAGE_ARGS = ['', ' ', ';', ';;', 'a', 'a b', '(a, b) c', '(a,) c', '() c', 'global', 'global x', 'local x 1', 'structure', 'text', 'text a', '|',
+                'a |', '| a', '${', '${a}', 'python:', 'python: 1', 'string:', 'string:${', 'not:', 'exists:', 'import:', 'import: os', 'load:',
+                'load: x', '1 2 3', 'x y; ; z w', 'nothing', 'default', 'a-b', 'a-b 1', 'a.b c', '\xe9', '\xe9 1', 'x \xe9', '$', '$$', "'",
+                'a;b', 'a ;; b', '(', ')', '(a', 'a)', ',', 'a,b c', '(a-b, c) d', 'repeat', 'repeat x', 'attrs', 'template', 'macros',
+                'x 1;x 2', 'global x 1; x 2', 'global a-b 1', 'x:y 1', ':', 'x:', ':y 1', '&amp;', '&', 'a &amp;&amp; b', 'x\n1', '\n', '\t',
+                'x lambda: 1', 'true', 'false', 'on', 'off']
+
+
+def entity_decoded_token_explains(e, src):
+    """Known mechanism (same root as the offset drift): attribute values are entity-decoded before they are
+    parsed, so an error token that was WRITTEN with character entities is reported in its decoded form.  Holds iff
+    the source text at the reported offset decodes to exactly the token."""
+    from vlib import exprs
+    tok = str(e.token)
+    off = e.offset
+    window = src[off:off + 8 * len(tok) + 8]
+    if '&' not in window and ';;' not in window:
+        return False
+    for k in range(len(tok), len(tok) + 8 * window.count('&') + window.count(';;') + 1):
+        dec = exprs.decode_terminated(src[off:off + k])
+        if tok in (dec, dec.replace(';;', ';')) and tuple(e.location) == line_col(src, off):
+            return True
+    return False
+
+
+def drift_explains(e, src):
+    """The recorded drift mechanism: the token stands d characters further right, d being what the entities and
+    ';;' escapes written before it in the same attribute value predict."""
+    tok = str(e.token)
+    for d in range(1, 40):
+        true_off = e.offset + d
+        if src[true_off:true_off + len(tok)] != tok:
+            continue
+        feats, seg = preceding_features(src, true_off)
+        if predicted_drift(seg) == -d:
+            return True
+    return False
+
+
+def layer_garbage_arguments(ctx, n):
+    """M-crash: every statement with arbitrary argument text (and random pairs of them).  Whatever the argument,
+    compilation either succeeds or raises a TemplateError that is aligned with the source - never an internal
+    error such as a SyntaxError from generated code."""
+    from chameleon import PageTemplate
+    from chameleon.exc import TemplateError
+    import warnings
+    rng = ctx.rng
+    for i in range(n):
+        k = rng.choice([1, 1, 2])
+        attrs = ' '.join('%s="%s"' % (st, ''.join(rng.choice(GARBAGE_ARGS) for _ in range(rng.randint(1, 2))))
+                         for st in rng.sample(GARBAGE_STMTS, k))
+        wrap = rng.choice(['%s', '<div tal:switch="1">%s</div>', '<div metal:use-macro="m">%s</div>', '<div i18n:translate="">%s</div>',
+                           'line\n  <b>t</b> %s'])
+        src = wrap % ('<p %s>x</p>' % attrs)
+        ctx.mon('M-crash')
+        try:
+            with warnings.catch_warnings():
+                warnings.simplefilter('ignore')
+                PageTemplate(src)
+            res = 'compiled'
+        except TemplateError as e:
+            res = 'TemplateError'
+            problem = monitors.check_template_error(e, src)
+            if problem:
+                key = 'garbage-argument-template-error-misaligned'
+                if entity_decoded_token_explains(e, src):
+                    key = 'token-of-expression-written-with-entities-is-the-decoded-text'
+                elif drift_explains(e, src):
+                    key = 'offset-drift-after-entity-or-escaped-semicolon-in-list'
+                ctx.violation(key, 'compiling %r: %s: %s' % (src, type(e).__name__, problem), {'kind': 'valid', 'src': src, 'cfg': {}})
+        except Exception as e:
+            res = 'crash'
+            msg = '%s: %s' % (type(e).__name__, str(e).split('\n')[0][:80])
+            key = 'garbage-argument-crash-' + type(e).__name__
+            if isinstance(e, AssertionError) and 'tal:case' in src and 'metal:define-macro' in src and 'tal:switch' in src:
+                key = 'compiler-crash-case-in-macro-below-switch'
+            ctx.violation(key, 'compiling %r raised %s' % (src, msg), {'kind': 'valid', 'src': src, 'cfg': {}})
+        ctx.cover('garbage-outcome', res)
+        ctx.case(key=('garbage', res, tuple(sorted(a.split('=')[0] for a in attrs.split('" ')))), nontrivial=True)
 
 
 def smoke_gen(rng, depth):
